@@ -112,6 +112,9 @@ REF_CONVERTERS = {
     ('int', None): _ref_int(),
     ('int', '2'): _ref_int(2),
     ('int', 'min=1,max=9'): _ref_int(None, 1, 9),
+    ('int', 'min=0'): _ref_int(None, 0, None),
+    ('int', 'max=0'): _ref_int(None, None, 0),
+    ('float', 'min=0,max=1'): _ref_float(0, 1),
     ('uuid', None): _ref_uuid,
     ('ab', None): lambda v: v.upper() if v in ('a', 'b', 'ab') else None,
     ('path', None): 'PATH',
@@ -245,6 +248,7 @@ def _seg_templates():
     out = []
     for n in NAMES[:2]:
         out += ['{%s}' % n, '{%s:int}' % n, '{%s:int(2)}' % n, '{%s:int(min=1,max=9)}' % n, '{%s:uuid}' % n, '{%s:ab}' % n]
+    out += ['{f:int(min=0)}', '{g:int(max=0)}', '{h:float(min=0,max=1)}']
     out += ['{f:float}', '{g:float(max=100)}', '{f:float(finite=False)}', '{g:float(max=100,finite=False)}',
             '{h:float(min=-5,finite=False)}']
     out += ['{f}-{g}', '{f}.{g}', 'x{f}', '{f:int}x{g}', '{f}\\d', '{h}-{k}', 'x{h:ab}', 'a{b}', '{f}x', '{g:int}-{h}']
@@ -266,10 +270,14 @@ def _fillers(cname, arg):
     if cname == 'int':
         if arg == '2':
             return ['12', '7', ' 7']
+        if arg in ('min=0', 'max=0'):
+            return ['-1', '0', '1']
         if arg:
             return ['5', '0', '12']
         return ['7', '007', ' 7', 'x']
     if cname == 'float':
+        if arg == 'min=0,max=1':
+            return ['-0.25', '0', '0.5', '1', '1.5']
         return ['1.5', 'inf', '-inf', 'nan', '1e3', '50', ' 5', 'x']
     if cname == 'uuid':
         return [UUID_OK, 'x']
@@ -553,11 +561,11 @@ class Histories(Suite):
 
 POOL = ['/a', '/{f}', '/a/{g}', '/a/b', '/{f}/b', '/{f:int}/b', '/{f}-{g}', '/a/{g:path}', '/{f:ab}/{h}', '/x{f}/b',
         '/{f:int}x{g}', "/it's/{h}", '/a\\b/{h}', '/{f}/{k:path}/x', '/a/{h}/zz', '/{f}/b/7', '/b/{g:rest}',
-        '/{g:float(max=100,finite=False)}/b']
+        '/{g:float(max=100,finite=False)}/b', '/{f:int(min=0)}/b']
 
 
 class PoolEnum(Suite):
-    """Exhaustive: every ordered selection of <= 2 (quick) / <= 3 (thorough) templates from an 18-template pool (incl.
+    """Exhaustive: every ordered selection of <= 2 (quick) / <= 3 (thorough) templates from a 19-template pool (incl.
     one unacceptable template and literals with quote / backslash) x both compile flags on the last add, all
     representative paths."""
 
